@@ -34,7 +34,7 @@ ASSUMPTIONS = [
 ]
 REQUIRED_REACH = {"monitor.baseline_metrics": 300, "contract.safe_divide": 1000, "monitor.reporting_metrics": 50,
                   "monitor.caltrack_metrics": 50, "monitor.hourly_stored_vs_predict": 3, "monitor.hourly_gate": 6,
-                  "monitor.daily_error": 4, "monitor.daily_gate": 4, "ratio.undefined_expected": 20, "monitor.hourly_gate_undefined_metric": 1, "monitor.daily_model_object_reused": 2}
+                  "monitor.daily_error": 4, "monitor.daily_gate": 4, "ratio.undefined_expected": 20, "monitor.hourly_gate_undefined_metric": 2, "monitor.hourly_gate_undefined_metric_straddled": 3, "monitor.daily_model_object_reused": 2}
 
 VIOL = []
 CTX = {"where": "direct"}
@@ -336,7 +336,12 @@ def _hourly_fit(spec, rng, keys, hist):
     if spec.get("net_metered_zero_mean"):
         # mean usage of the hours that count (not interpolated) ~ 0: CVRMSE is undefined, PNRMSE is not
         df["observed"] = df["observed"] - float(df["observed"].mean(skipna=True))
-    bd = em.HourlyBaselineData(df, is_electricity_data=True)
+    if spec.get("sparse_zero_iqr"):
+        # a sparse gas meter: exactly zero in ~80% of the hours -> the inter-quartile range is 0, PNRMSE is undefined, CVRMSE is not
+        o = df["observed"].to_numpy().copy()
+        o[rng.random(len(o)) < 0.8] = 0.0
+        df["observed"] = o
+    bd = em.HourlyBaselineData(df, is_electricity_data=not spec.get("sparse_zero_iqr"))
     captured = []
     import opendsm.common.metrics as M
     orig_init = M.BaselineMetrics.__init__
@@ -371,6 +376,24 @@ def _hourly_fit(spec, rng, keys, hist):
         hist["hourly_gate"]["undefined-metric expect_dq=%s" % expect] = 1
         if bool(poor) != expect:
             add("hourly-poor-fit-gate:undefined-metric", "poor-fit disqualification %s but cvrmse_adj=%r (thr %r) pnrmse_adj=%r (thr %r)" % (bool(poor), cv, thr_cv, pn, thr_pn))
+        # thresholds straddling the metric that IS defined: the undefined one can never rescue the model
+        which, val = ("cvrmse_threshold", cv) if cv is not None else ("pnrmse_threshold", pn)
+        if val is not None and val > 0:
+            for f in (1.001, 0.999):
+                m2 = model_for({"seed": int(spec["mseed"]), which: val * f})
+                d2 = m2.baseline_metrics.model_dump()
+                got_val = d2["cvrmse_adj"] if cv is not None else d2["pnrmse_adj"]
+                other = d2["pnrmse_adj"] if cv is not None else d2["cvrmse_adj"]
+                if other is not None or got_val is None or not O.close(got_val, val, 0, 1e-9):
+                    add("hourly-refit-not-reproducible", "same data+seed refit gave other metrics")
+                    continue
+                I.reach("monitor.hourly_gate_undefined_metric_straddled")
+                poor2 = [w for w in m2.disqualification if "model_fit" in w.qualified_name]
+                expect2 = val >= val * f
+                hist["hourly_gate"]["undefined-metric straddled expect_dq=%s" % expect2] = 1
+                if bool(poor2) != expect2:
+                    add("hourly-poor-fit-gate:undefined-metric", "poor-fit disqualification %s but the only defined ratio %s=%.6g has threshold %.6g (the other ratio is undefined)" % (
+                        bool(poor2), which.replace("_threshold", "_adj"), val, val * f))
         return
     for fcv, fpn in ((1.001, 1.001), (0.999, 0.999), (1.001, 0.999), (0.999, 1.001)):
         st = dict(seed=int(spec["mseed"]), cvrmse_threshold=cv * fcv, pnrmse_threshold=pn * fpn)
@@ -491,8 +514,10 @@ def gen_cases(tier, seed):
         cases.append(dict(kind="hourly", tz=zones[k % len(zones)], ghi=bool(k % 3 == 1), noise=[0.05, 0.3, 0.8][k % 3],
                           pure_noise=bool(k % 5 == 4), mseed=k + 1, batch=k, timeout=1200))
     cases.append(dict(kind="hourly", tz="America/Chicago", ghi=False, noise=0.05, pure_noise=False, net_metered_zero_mean=True, mseed=77, batch=900, timeout=1200))
+    cases.append(dict(kind="hourly", tz="UTC", ghi=False, noise=0.05, pure_noise=False, sparse_zero_iqr=True, mseed=79, batch=902, timeout=1200))
     if not q:
         cases.append(dict(kind="hourly", tz="Europe/London", ghi=True, noise=0.3, pure_noise=False, net_metered_zero_mean=True, mseed=78, batch=901, timeout=1200))
+        cases.append(dict(kind="hourly", tz="Australia/Sydney", ghi=False, noise=0.3, pure_noise=False, sparse_zero_iqr=True, mseed=80, batch=903, timeout=1200))
     nd = 10 if q else 90
     fams = ["current", "legacy", "billing"]
     for k in range(nd):
